@@ -416,6 +416,9 @@ class RepoModel(Model):
             "locked": VBool(P.const(name + ".locked", BOOL)),
             "path": VStr(P.const(name + ".path", STR)),
             "bare": VBool(P.const(name + ".bare", BOOL)),
+            "gitconfig": vals.fresh("dict[bytes,bytes]", P.name(name + ".gitconfig")),
+            "has_xandikos": VBool(P.const(name + ".gitconfig.has_xandikos", BOOL)),
+            "description": VOpt(P.const(name + ".description.none", BOOL), VStr(P.const(name + ".description", STR), True)),
         }
         canonical_fact(it, fields["index_dom"], fields["index_sha"], fields["index_mode"])
         P.assume(fields["ncommits"].t >= 0)
@@ -447,6 +450,20 @@ class RepoModel(Model):
             return self.method(ref, index_path, name)
         if name == "has_index":
             return self.method(ref, lambda it_, r, a, k: VBool(z3.Not(F(it_, r)["bare"].t)), name)
+        if name == "get_config":
+            def get_config(it_, self_ref, a, k):
+                from .configmodels import GITCONFIG
+
+                ff = it_.path.heap[self_ref.addr].fields
+                return new(it_, GITCONFIG, {"data": ff["gitconfig"], "has_xandikos": ff["has_xandikos"], "repo": self_ref})
+            return self.method(ref, get_config, name)
+        if name == "get_description":
+            return self.method(ref, lambda it_, r, a, k: F(it_, r)["description"], name)
+        if name == "set_description":
+            def set_description(it_, self_ref, a, k):
+                it_.path.heap[self_ref.addr].fields["description"] = VOpt(False, a[0])
+                return NONE
+            return self.method(ref, set_description, name)
         raise Unsupported(f"Repo.{name}")
 
     def getitem(self, it, ref, idx):
@@ -470,7 +487,16 @@ class RepoModel(Model):
         return out
 
     def havoc(self, it, ref):
-        raise Unsupported("havoc of a repository model")
+        """modifies=[... the repository ...] at a call site: every component becomes arbitrary
+        (the callee's postcondition says what it then is)."""
+        cell = it.path.heap[ref.addr]
+        for k, v in list(cell.fields.items()):
+            if isinstance(v, VRef):
+                continue
+            if isinstance(v, V):
+                cell.fields[k] = it.path.fresh_like(v, "havoc." + k)
+            elif isinstance(v, z3.ExprRef):
+                cell.fields[k] = it.path.const("havoc." + k, v.sort())
 
 
 class IndexPathModel(Model):
@@ -656,6 +682,16 @@ class AbstractRepoModel(Model):
         f = F(it, ref)
         if name in ("object_store", "path"):
             return f[name]
+        if name == "get_config":
+            def get_config(it_, self_ref, a, k):
+                from .configmodels import GITCONFIG
+
+                ff = it_.path.heap[self_ref.addr].fields
+                if "gitconfig" not in ff:
+                    ff["gitconfig"] = vals.fresh("dict[bytes,bytes]", it_.path.name("gitconfig"))
+                    ff["has_xandikos"] = VBool(it_.path.const("gitconfig.has_xandikos", BOOL))
+                return new(it_, GITCONFIG, {"data": ff["gitconfig"], "has_xandikos": ff["has_xandikos"], "repo": self_ref})
+            return self.method(ref, get_config, name)
         raise Unsupported(f"abstract Repo.{name}")
 
     def frame_eq(self, it, old, cur):
@@ -783,6 +819,9 @@ def install(reg):
     SN["tree_view"] = tree_view
     SN["repo_head"] = lambda it, a, k: _repo(it, a[0])["head"]
     SN["repo_ncommits"] = lambda it, a, k: _repo(it, a[0])["ncommits"]
+    SN["repo_gitconfig"] = lambda it, a, k: _repo(it, a[0])["gitconfig"]
+    SN["repo_description"] = lambda it, a, k: _repo(it, a[0])["description"]
+    SN["gitconfig_data"] = lambda it, a, k: F(it, a[0])["data"]
     SN["repo_locked"] = lambda it, a, k: _repo(it, a[0])["locked"]
     SN["repo_has"] = lambda it, a, k: VBool(z3.Select(_repo(it, a[0])["store_has"], a[1].t))
     SN["repo_objects"] = lambda it, a, k: VSet(VStr(S(""), True), _repo(it, a[0])["store_has"])
